@@ -861,6 +861,8 @@ func (c *Compiler) writeNode(node, parent *node, recv, v, vsrc string, depth int
 					return err
 				}
 				if mode == modeSet {
+					// The map may be nil (a root map, a map held as a map value): create it before the store.
+					c.wl("if ", c.fmtVnb(node, v, depth), " == nil { ", c.fmtVnb(node, v, depth), " = make(", c.fmtT(node), ") }")
 					c.wl(c.fmtV(node, v), "[", key, "] = ", nv)
 					c.wl("return nil")
 				}
@@ -881,6 +883,7 @@ func (c *Compiler) writeNode(node, parent *node, recv, v, vsrc string, depth int
 				c.writeCmpNilElem(node.mapv, nv, depth, mode)
 				err = c.writeNode(node.mapv, node, recv, nv, "", depth+1, mode)
 				if mode == modeSet {
+					c.wl("if ", c.fmtVnb(node, v, depth), " == nil { ", c.fmtVnb(node, v, depth), " = make(", c.fmtT(node), ") }")
 					c.wl(c.fmtV(node, v), "[", c.fmtP(node.mapk, "k", depth+1), "] = ", nv)
 					c.wl("return nil")
 				}
